@@ -160,6 +160,11 @@ def c14_workload(rng, tier):
     files = sorted(glob.glob(os.path.join(gen.REPO, "tests/molfiles/*/*.mol")))
     rng.shuffle(files)
     texts = []
+    # unsymmetrical chains: dozens of refinement rounds, so that calls on a SHARED object overlap for long
+    for nheavy in (60, 90):
+        atoms = [dict(sym="C", chg=0, rad=0, mass=0, x=str(i), y="0", z="0") for i in range(nheavy)] + [dict(sym="Cl", chg=0, rad=0, mass=0, x="-1", y="0", z="0")]
+        texts.append("\n".join(textgen.render_v3000({"atoms": atoms, "bonds": [(i, i + 1, 1) for i in range(nheavy)]}, rng,
+                                                     opts={"star": False, "cont": 0, "extras": False, "trail": False, "header": False})[0]))
     for f in files[: (10 if tier == "quick" else 80)]:
         t = open(f).read()
         if len(t.splitlines()) < 150:
@@ -293,7 +298,11 @@ def threaded_results(items, nthreads, rng, shared_objects=True):
             r.shuffle(many)
             for i in many:
                 mine.append({"key": items[i]["key"], "val": c14_worker.run_item(items[i])})
-        for _ in range(3):
+        try:
+            barrier.wait(timeout=120)          # all callers enter the shared-object phase together
+        except Exception:
+            pass
+        for _ in range(5):
             for key, g, k in r.sample(shared, len(shared)):
                 try:
                     mine.append({"key": "sh-canon|" + key, "val": c14_worker.dig(canonicalize_molecule(g))})
